@@ -349,7 +349,7 @@ func genC18(g *Gen) {
 	g.Exhaust = append(g.Exhaust, fmt.Sprintf("all sequences of 1..2 calls from a %d-call alphabet (Write len 0..3; WriteAt len 0..2 at -1..3; Seek -1..2 x whence 0..3; Size) followed by Write(2), on sections off in %v x n in 0..3, first underlying call answered by each of %d responses", len(alpha), offs, nresp))
 
 	// (2) structured random call sequences of 1..60 calls
-	nh := g.N(30000, 400000)
+	nh := g.N(16000, 400000)
 	for k := 0; k < nh; k++ {
 		at := g.R.Intn(6) == 0
 		var off, n int64
